@@ -56,6 +56,31 @@ def run(chk):
                 return v[2], k
         return None, None
 
+    cf_ = cfgmod.cfg_of(b)
+
+    def loop_sources(h):
+        """shown origins of the iterators advanced in loop h"""
+        blks = cf_.natural_loops().get(h, set())
+        res = []
+        for bb2, t2 in cfgmod.calls(b):
+            if bb2 not in blks or not (cfgmod.callee(t2) or "").endswith("::next"):
+                continue
+            pl = t2["args"][0].get("move") or t2["args"][0].get("copy")
+            loc = pl["local"] if pl else None
+            for _ in range(4):
+                if loc in names or loc is None:
+                    break
+                for st in b.blocks[bb2]["stmts"]:
+                    if st["k"] == "assign" and st["place"]["local"] == loc and not st["place"]["proj"] and st["rv"]["k"] == "ref":
+                        loc = st["rv"]["place"]["local"]
+                        break
+                else:
+                    break
+            if loc in names and names[loc] in origin:
+                arg, oo = origin[names[loc]]
+                res.append(rn(C.show_arg(forms.Normalizer(it, oo, rename=rn), arg)))
+        return res
+
     arm_forms = {}
     map_of_arm = {}
     n_flows = 0
@@ -118,6 +143,10 @@ def run(chk):
                "Model::new receives window sizes (%s, %s); expected (char_window_size, type_window_size)" % (C.show_arg(nz, a[4]), C.show_arg(nz, a[5])), site=C.site(b, e[1]))
         for i, kind in ((0, "char"), (1, "type")):
             s = C.show_arg(nz, a[i]) if a[i][0] != "agg" else nz.value_atom(dict(a[i][2]).get("0"))
+            mh = re.match(r"hv:loop(\d+):", s)
+            if mh:
+                # the vector is filled by an explicit loop (or a desugared `.map(..).collect()`): its source is what the loop iterates over
+                s = " ; ".join(loop_sources(int(mh.group(1)))) or s
             mp = map_of_arm.get(kind)
             ok = mp is not None and ("&" + absint.pstr(mp) in rn(s) or absint.pstr(mp) + ")" in rn(s) or re.search(r"\b%s\b" % re.escape(absint.pstr(mp)), rn(s)) is not None)
             other = map_of_arm.get("type" if kind == "char" else "char")
@@ -202,19 +231,32 @@ def r093(chk, w, b, it, outs, rn):
                 cb = w.body(a[1][len("closure:"):])
                 if cb is not None and any((cfgmod.callee(t) or "").endswith("first_mut") for _, t in cfgmod.calls(cb)):
                     cl = cb
+    n0 = 0
     if cl is None:
-        chk.undecided("R09.3", "record-builder", "closure building WordWeightRecord not found", site=C.site(b))
-        return
-    chk.fn(cl.fn)
-    ci = absint.Interp(w, cl, models=C.effects.EXTRA_MODELS)
-    ci.trace_deref_stores = True
-    couts = [x for x in ci.run(0) if x.kind == "return"]
+        # the records are built by an explicit loop in Trainer::train itself: one abstract iteration of that loop
+        cf_ = cfgmod.cfg_of(b)
+        fm = [bb for bb, t in cfgmod.calls(b) if (cfgmod.callee(t) or "").endswith("first_mut")]
+        lp = cf_.innermost_loop_of(fm[0]) if len(fm) == 1 else None
+        pre = [o for o in it.run(0, stop=[lp[0]]) if o.kind == "stop"] if lp else []
+        if not pre:
+            chk.undecided("R09.3", "record-builder", "neither a closure nor a loop building WordWeightRecord found", site=C.site(b))
+            return
+        h, blks = lp
+        cl, ci = b, it
+        n0 = len(pre[0].trace)
+        couts = [x for x in it.run(h, stop=set(cf_.blocks) - blks, env=pre[0].env, cons=pre[0].cons, stop_at_entry_again=True, trace=pre[0].trace)
+                 if x.kind == "stop" and x.info == h and (x.cons.get("ret:%d" % h) or (0, 0, None))[2] == "Some"]
+    else:
+        chk.fn(cl.fn)
+        ci = absint.Interp(w, cl, models=C.effects.EXTRA_MODELS)
+        ci.trace_deref_stores = True
+        couts = [x for x in ci.run(0) if x.kind == "return"]
     roles = {}
     bucket = set()
     size = set()
     for x in couts:
         nz = forms.Normalizer(ci, x)
-        for e in x.trace:
+        for e in x.trace[n0:]:
             if e[0] == "store" and e[2][-1][0] == "f" and e[2][-1][1] in ("[first]", "[last]"):
                 m = re.search(r"\[([^\]]*)\]\.(\d)$", nz.value_atom(e[3]))
                 roles[e[2][-1][1]] = m.group(2) if m else "?"
@@ -238,12 +280,13 @@ def r093(chk, w, b, it, outs, rn):
     idxv = None
     for x in couts:
         nz = forms.Normalizer(ci, x)
-        for e in x.trace:
+        for e in x.trace[n0:]:
             if e[0] == "call" and e[2] and "Index<" in e[2] and "IndexMut" not in e[2] and len(e[3]) > 1 and e[3][1][0] in ("expr", "sym"):
                 idxv = wl.sub("LEN", C.show_arg(nz, e[3][1]))
     if idxv is None and len(ci.index_vals) == 1 and couts:
         # the bucket table is a slice: the index is a built-in index projection, not an Index::index call
         idxv = wl.sub("LEN", C.show_arg(forms.Normalizer(ci, couts[0]), ci.index_vals[0]))
+    idxv = forms.resort(idxv) if idxv is not None else None
     chk.ob("R09.3", "record:bucket", idxv is not None and re.match(r"-1 \+ min\(LEN, (alloc::vec::Vec::len|\[T\]::len)\(&.*\)\)$", idxv) is not None,
            "bucket index for a dictionary word is `%s`; expected min(word_len, number of buckets) - 1" % idxv, site=C.site(cl), sample={"bucket": idxv})
 
@@ -280,16 +323,28 @@ def r091_new(chk, w):
     chk.floor("R09.1", "Trainer::new fields", n, 4)
 
 
+def tag_loop_body(w, fn):
+    """the body that holds the tag model loop of Predictor::new: a closure of it (`predict_tags.then(|| ..)`) or the function itself"""
+    for k in C.closure_keys(w, fn) + [fn]:
+        cb = w.body(k)
+        if cb is None:
+            continue
+        cs = [cfgmod.callee(t) or "" for _, t in cfgmod.calls(cb)]
+        if any(c.endswith("HashMap::insert") for c in cs) and any(c.endswith("Vec::push") for c in cs):
+            return cb
+    return None
+
+
 def r091_predictor(chk, w):
     fn = C.P + "::new"
     b, it, outs = C.run_fn(w, fn)
     chk.fn(fn)
-    found = {"char": 0, "type": 0}
+    found = {"char": set(), "type": set()}
     for e, o in C.all_calls(outs, lambda e: e[2] in ("vaporetto::char_scorer::CharScorer::new", "vaporetto::type_scorer::TypeScorer::new")):
         kind = "char" if "char_scorer" in e[2] else "type"
         nz = forms.Normalizer(it, o)
         shown = [C.show_arg(nz, a) for a in e[3]]
-        found[kind] += 1
+        found[kind].add(e[1])       # call sites, not paths: the same call is reached with and without tag prediction
         if kind == "char":
             ok = shown[0] == "arg1.0.char_ngram_model" and shown[1] == "arg1.0.dict_model" and shown[2] == "arg1.0.char_window_size"
             tagarg = e[3][3] if len(e[3]) > 3 else None
@@ -297,10 +352,35 @@ def r091_predictor(chk, w):
             ok = shown[0] == "arg1.0.type_ngram_model" and shown[1] == "arg1.0.type_window_size"
             tagarg = e[3][2] if len(e[3]) > 2 else None
         chk.ob("R09.1", "Predictor::new:%s-scorer-args" % kind, ok, "%sScorer::new receives %s" % (kind.capitalize(), shown), site=C.site(b, e[1]), sample={"kind": kind, "args": shown})
+    found = {k: len(v) for k, v in found.items()}
     chk.ob("R09.1", "Predictor::new:scorers", found == {"char": 1, "type": 1}, "scorer constructor calls found: %s" % found, site=C.site(b))
-    # tag n-gram vectors: the closure pushes char_ngram_model to the vector handed to the char scorer
-    cl = w.body(fn + "::{closure#0}")
-    if cl is not None:
+    # tag n-gram vectors: the tag model loop (in the `predict_tags.then(|| ..)` closure, or in Predictor::new itself when written as
+    # if/else) pushes char_ngram_model to the vector handed to the char scorer
+    cl = tag_loop_body(w, fn)
+    if cl is not None and cl.fn == fn:
+        pushes = {}
+        for x in outs:
+            nz = forms.Normalizer(it, x)
+            for e in x.trace:
+                if e[0] == "call" and e[2] == "alloc::vec::Vec::push" and "ngram_model" in nz.value_atom(e[3][1]):
+                    pushes[nz.value_atom(e[3][0])] = nz.value_atom(e[3][1])
+        kinds = sorted((k, v) for k, v in pushes.items())
+        okc = any("char_ngram_model" in v for k, v in kinds) and any("type_ngram_model" in v for k, v in kinds)
+        chk.ob("R09.1", "Predictor::new:tag-model-vectors", okc and len(kinds) == 2, "tag n-gram model vectors are filled from %s" % kinds, site=C.site(cl), sample={"pushes": kinds})
+        loc = {}
+        for k, v in kinds:
+            m = re.fullmatch(r"&_(\d+)", k)
+            if m:
+                loc["char" if "char_ngram_model" in v else "type"] = int(m.group(1))
+        args_c = [t for _, t in cfgmod.calls(b) if cfgmod.callee(t) == "vaporetto::char_scorer::CharScorer::new"]
+        args_t = [t for _, t in cfgmod.calls(b) if cfgmod.callee(t) == "vaporetto::type_scorer::TypeScorer::new"]
+
+        def last_arg_local_(t):
+            p_ = t["args"][-1].get("move") or t["args"][-1].get("copy")
+            return p_["local"] if p_ else None
+        okflow = len(loc) == 2 and bool(args_c and args_t) and last_arg_local_(args_c[0]) in C.move_targets(b, loc["char"]) and last_arg_local_(args_t[0]) in C.move_targets(b, loc["type"])
+        chk.ob("R09.1", "Predictor::new:tag-vectors-to-scorers", okflow, "the vector collecting char tag n-grams is not the one handed to CharScorer::new (or type/TypeScorer)", site=C.site(b))
+    elif cl is not None:
         ci = absint.Interp(w, cl, models=C.effects.EXTRA_MODELS)
         pushes = {}
         for x in ci.run(0):
